@@ -347,3 +347,74 @@ def absorb(ctx, r):
     """Feed a driver's reported violations through the known-findings matcher."""
     for v in r.get('violations') or []:
         ctx.violation(v['signature'], v['what'], v.get('replay'))
+
+
+def edge_cover_paths(g, rng, want_edge=None, sample=1.0, max_len=12, end_pred=None):
+    """Greedy edge cover of a TLC state graph: a list of paths (lists of edge indexes) from an initial state such that
+    every edge selected by want_edge/sample lies on some path.  end_pred(edge) -> True if a path may end after it
+    (paths are extended with a shortest continuation to such an edge when needed)."""
+    nodes, edges = g['nodes'], g['edges']
+    out = [[] for _ in nodes]
+    for i, e in enumerate(edges):
+        out[e[0]].append(i)
+    # BFS tree from the initial states
+    parent = {}
+    dq = list(g['init'])
+    seen = set(dq)
+    qi = 0
+    while qi < len(dq):
+        u = dq[qi]
+        qi += 1
+        for ei in out[u]:
+            v = edges[ei][1]
+            if v not in seen:
+                seen.add(v)
+                parent[v] = ei
+                dq.append(v)
+
+    def to_node(u):
+        p = []
+        while u in parent:
+            ei = parent[u]
+            p.append(ei)
+            u = edges[ei][0]
+        p.reverse()
+        return p
+
+    todo = set()
+    for i, e in enumerate(edges):
+        if e[0] not in seen:
+            continue
+        if want_edge is not None and not want_edge(e):
+            continue
+        if sample >= 1.0 or rng.random() < sample:
+            todo.add(i)
+    total = len(todo)
+    paths = []
+    order = sorted(todo)
+    rng.shuffle(order)
+    for start in order:
+        if start not in todo:
+            continue
+        p = to_node(edges[start][0]) + [start]
+        todo.discard(start)
+        for ei in p:
+            todo.discard(ei)
+        u = edges[start][1]
+        while len(p) < max_len:
+            cand = [ei for ei in out[u] if ei in todo]
+            if not cand:
+                break
+            ei = cand[rng.randrange(len(cand))]
+            p.append(ei)
+            todo.discard(ei)
+            u = edges[ei][1]
+        if end_pred is not None and not end_pred(edges[p[-1]]):
+            # extend with one edge after which the path may end, if the state offers one
+            ends = [ei for ei in out[u] if end_pred(edges[ei])]
+            if ends:
+                ei = ends[rng.randrange(len(ends))]
+                p.append(ei)
+                todo.discard(ei)
+        paths.append(p)
+    return paths, total
